@@ -17,6 +17,11 @@ def main():
     ap.add_argument("--alt-only", action="store_true")
     ap.add_argument("--out", required=True)
     a = ap.parse_args()
+    try:
+        import faulthandler, signal
+        faulthandler.register(signal.SIGUSR1, all_threads=True)       # (kill -USR1 <pid>: where is everybody?)
+    except Exception:  # noqa: BLE001
+        pass
     stage = os.environ.get("VF_STAGE")
     mod = importlib.import_module("vf.checks.%s" % a.id.lower())
     if getattr(mod, "NEEDS_PSUTIL", True):
